@@ -1,5 +1,6 @@
 // C12 (send side): what follows a reset. A SendStream that has used `sent` bytes of its windows
-// (arbitrary, possibly blocked on its stream window with a STREAM_DATA_BLOCKED pending) is reset -
+// (two transmission attempts of arbitrary reach, optionally a MAX_STREAM_DATA in between; possibly
+// blocked on its stream window with a STREAM_DATA_BLOCKED pending) is reset -
 // by the peer's STOP_SENDING or internally - and then asked to transmit, twice, with a loss in between:
 //  * STOP_SENDING: exactly one RESET_STREAM is written, its final size is >= everything the stream
 //    can have sent and within the peer's MAX_STREAM_DATA and MAX_DATA, no STREAM
@@ -48,12 +49,24 @@ fn verif_send_stream_after_reset() {
     // the application wants to have written up to `want` bytes: the flow controller hands out what
     // both windows allow and remembers a block otherwise
     let want: u32 = kani::any();
-    let granted = {
+    let want2: u32 = kani::any();
+    let raise: u32 = kani::any();
+    let (sent, stream_max) = {
         use crate::sync::data_sender::OutgoingDataFlowController as _;
-        s.data_sender.flow_controller_mut().acquire_flow_control_window(VarInt::from_u32(want))
+        let fc = s.data_sender.flow_controller_mut();
+        let g1 = fc.acquire_flow_control_window(VarInt::from_u32(want)).as_u64();
+        // optionally a MAX_STREAM_DATA arrives between two transmission attempts
+        let mut limit = stream_max;
+        if kani::any() {
+            fc.set_max_stream_data(VarInt::from_u32(raise));
+            if raise > limit {
+                limit = raise;
+            }
+        }
+        let g2 = fc.acquire_flow_control_window(VarInt::from_u32(want2)).as_u64();
+        (core::cmp::max(g1, g2), limit)
     };
-    let sent = granted.as_u64();
-    assert!(sent <= want as u64 && sent <= stream_max as u64 && sent <= conn_total as u64);
+    assert!(sent <= core::cmp::max(want, want2) as u64 && sent <= stream_max as u64 && sent <= conn_total as u64);
     let blocked_before = s.data_sender.flow_controller().state() != StreamFlowControllerState::Ready;
     let id = StreamId::initial(endpoint::Type::Server, StreamType::Bidirectional);
     let internal: bool = kani::any();
